@@ -123,14 +123,33 @@ func randomCodeFrom(a *Asm, r *Rng, n int, targets []common.Address) []byte {
 				a.PushU(uint64([]int{0, 0, 1, 5000}[r.Intn(4)]))
 			}
 			a.PushBytes(t[:])
-			if r.Chance(60) {
+			if r.Chance(55) {
 				a.Op(opGAS)
+			} else if r.Chance(25) {
+				// a gas operand that does not fit 64 bits (all-ones is what compilers emit for "all gas"; the others have small low halves)
+				big := new(uint256.Int).Lsh(uint256.NewInt(1), uint([]int{64, 64, 128, 255}[r.Intn(4)]))
+				switch r.Intn(3) {
+				case 0:
+					big.Add(big, uint256.NewInt(uint64(r.Intn(50000))))
+				case 1:
+					big.SetAllOne()
+				}
+				a.Push(big)
 			} else {
 				a.PushU(uint64([]int{0, 700, 2300, 50000}[r.Intn(4)]))
 			}
 			a.Op(kind, opPOP)
 			if r.Chance(40) {
-				a.Op(0x3d, opPUSH1, 0, opPUSH1, 0, 0x3e) // RETURNDATASIZE 0 0 RETURNDATACOPY
+				switch r.Intn(4) {
+				case 0:
+					a.Op(0x3d, opPUSH1, 0, opPUSH1, 0, 0x3e) // RETURNDATASIZE 0 0 RETURNDATACOPY
+				case 1: // nothing to copy, from just behind / far behind the end of the buffer (EIP-211: out of bounds all the same)
+					a.Op(opPUSH1, 0).Op(0x3d, opPUSH1, byte(r.Intn(3)), 0x01).Op(opPUSH1, 0, 0x3e)
+				case 2: // one byte too many
+					a.Op(0x3d, opPUSH1, 1, 0x01).Op(opPUSH1, 0, opPUSH1, 0, 0x3e)
+				default: // an arbitrary window
+					a.PushU(uint64(r.Intn(40))).PushU(uint64(r.Intn(40))).PushU(uint64(r.Intn(64))).Op(0x3e)
+				}
 			}
 			if r.Chance(35) {
 				// the account just touched (it may now exist but be empty): look at it, or call it again with value
